@@ -68,7 +68,8 @@ fn waitgroup_counts<const K: usize>() {
 //@ complete: no
 //@ tier: thorough
 //@ bound: 0 other clone(s) alive when wait() is called (dropped one by one while the waiter is blocked)
-//@ timeout: 900
+//@ timeout: 1800
+//@ mem: 30
 //@ functions: WaitGroup::new, WaitGroup::clone, WaitGroup::wait, WaitGroup::drop
 //@ statement: clone adds one to the count, drop removes one and the last drop notifies all; wait() returns at once iff no other clone is alive,
 //@ statement: otherwise it gives up its own unit and blocks exactly until the count reaches zero — never returning while another clone is alive
@@ -94,7 +95,8 @@ fn c11_5a_waitgroup_counts_0() {
 //@ complete: no
 //@ tier: thorough
 //@ bound: 1 other clone(s) alive when wait() is called (dropped one by one while the waiter is blocked)
-//@ timeout: 900
+//@ timeout: 1800
+//@ mem: 30
 //@ functions: WaitGroup::new, WaitGroup::clone, WaitGroup::wait, WaitGroup::drop
 //@ statement: clone adds one to the count, drop removes one and the last drop notifies all; wait() returns at once iff no other clone is alive,
 //@ statement: otherwise it gives up its own unit and blocks exactly until the count reaches zero — never returning while another clone is alive
@@ -120,7 +122,8 @@ fn c11_5a_waitgroup_counts_1() {
 //@ complete: no
 //@ tier: thorough
 //@ bound: 2 other clone(s) alive when wait() is called (dropped one by one while the waiter is blocked)
-//@ timeout: 900
+//@ timeout: 1800
+//@ mem: 30
 //@ functions: WaitGroup::new, WaitGroup::clone, WaitGroup::wait, WaitGroup::drop
 //@ statement: clone adds one to the count, drop removes one and the last drop notifies all; wait() returns at once iff no other clone is alive,
 //@ statement: otherwise it gives up its own unit and blocks exactly until the count reaches zero — never returning while another clone is alive
